@@ -328,6 +328,10 @@ type c10cur struct {
 	c    *mlink.Cursor[int]
 	pred int // id of the entry before the target; 0 = head of the list
 	how  string
+	// method values bound when the cursor was obtained (every second cursor is
+	// read through them instead of through direct calls)
+	get   func() int
+	atEnd func() bool
 }
 
 type c10list struct {
@@ -431,7 +435,13 @@ func (l *c10list) checkAll(what string) {
 		}
 		var gv int
 		var ge bool
-		okc, pv, _ := fw.Try(func() { gv, ge = cu.c.Get(), cu.c.AtEnd() })
+		okc, pv, _ := fw.Try(func() {
+			if cu.get != nil {
+				gv, ge = cu.get(), cu.atEnd()
+			} else {
+				gv, ge = cu.c.Get(), cu.c.AtEnd()
+			}
+		})
 		if !okc {
 			l.fail("%s: cursor c%d (%s) should be valid at index %d but panicked: %v", what, ci, cu.how, idx, pv)
 			return
@@ -546,6 +556,10 @@ func (l *c10list) obtain() {
 		}
 	}
 	l.log.add("c%d := %s", len(l.curs), cu.how)
+	if l.r.IntN(2) == 0 {
+		cu.get, cu.atEnd = cu.c.Get, cu.c.AtEnd
+		cu.how += " [read through method values bound now]"
+	}
 	if len(l.curs) < 10 {
 		l.curs = append(l.curs, cu)
 	} else {
